@@ -210,6 +210,9 @@ pub struct Ctrl {
     pub busy: BusyGen,
     pub busy_violations: Vec<(&'static str, u8, u32)>,
     pub ignored_asleep: u64,
+    /// experiment / C01 busy contexts: a controller that does not latch commands received while BUSY is asserted
+    pub drop_while_busy: bool,
+    pub dropped_while_busy: u64,
     // --- SSD addressing
     pub xs: u32,
     pub xe: u32,
@@ -273,6 +276,8 @@ impl Ctrl {
             busy: BusyGen::default(),
             busy_violations: Vec::new(),
             ignored_asleep: 0,
+            drop_while_busy: false,
+            dropped_while_busy: 0,
             xs: 0,
             xe: 0,
             ys: 0,
@@ -473,7 +478,12 @@ impl Ctrl {
 
     fn command(&mut self, op: u8) {
         self.finish_cmd();
-        let asleep = self.asleep;
+        let mut asleep = self.asleep;
+        if self.drop_while_busy && self.busy.active() {
+            // not latched: the command and its parameters are lost
+            self.dropped_while_busy += 1;
+            asleep = true;
+        }
         self.cmds.push(CmdRec { op, nparams: 0, params: Vec::new(), hash: 0xcbf29ce484222325, opidx: self.opidx, asleep });
         self.cur = Some(self.cmds.len() - 1);
         if asleep {
